@@ -13,7 +13,12 @@
                                                        a repeated edge keeps its place and takes the new weight)
      `if n == 0:` validation (fc0735f)    -> zero_block
      constraint validation loop        -> forallb (forallb (has_edge es)) cstr
-     stDiGraph(G) source / sink test   -> has_source / has_sink   (get_width itself is NOT modelled)
+     stDiGraph(G) source / sink test   -> has_source / has_sink
+     stDiGraph(G).get_width()          -> width : NOT a transcription (the code condenses the graph with networkx and
+                                          solves a min-flow with network simplex); the model computes the value that
+                                          computation is specified to return, the maximum number of pairwise
+                                          incomparable items (edges between different strongly connected components,
+                                          and components that contain an edge) by exhaustive search
      read_graphs block splitting       -> blocks_fuel (three `while` loops = three `span`s)
 
    Python exceptions are explicit [Error] values (all of them are ValueError in the code).
@@ -23,6 +28,7 @@
    is [IBad]/[FBad].  No proofs in this file. *)
 From Coq Require Import List NArith ZArith Bool Arith.
 Import ListNotations.
+From FP Require Reach.      (* generic closure [Reach.clos] (C17); not imported, to keep its names apart *)
 Open Scope N_scope.
 
 Definition str := list N.
@@ -198,8 +204,12 @@ Arguments Ok {A} a. Arguments Error {A} e. Arguments Unmodelled {A}.
 
 Definition wedge : Type := str * str * dec.
 Record ginfo := { gi_nodes : list str;         (* list(G.nodes()) : first-appearance order *)
-                  gi_edges : list wedge;       (* one entry per distinct (u,v), first-insertion order, last weight *)
-                  gi_n : nat; gi_m : nat }.     (* G.graph["n"], G.graph["m"]  (G.graph["w"] is not modelled) *)
+                  gi_edges : list wedge;       (* one entry per distinct (u,v), first-insertion order, last weight; "flow" is the only edge attribute *)
+                  gi_n : nat; gi_m : nat;      (* G.graph["n"] = G.number_of_nodes(), G.graph["m"] = G.number_of_edges(): computed, not read from the file *)
+                  gi_w : nat }.                (* G.graph["w"] = stDiGraph(G).get_width(): computed, the format has no width field *)
+(* The record is the complete attribute set of the returned DiGraph: G.graph has exactly the keys id, constraints and
+   (unless the block declares 0 vertices) n, m, w; nodes carry no attributes, edges exactly "flow".  The vertex count
+   written in the file is parsed, tested against 0 and then dropped: it is stored nowhere. *)
 Record graph := { gid : option str;                       (* None: no header text line -> str(id(graph_raw)) *)
                   gcons : list (list (str * str));        (* G.graph["constraints"] *)
                   ginf : option ginfo }.                  (* None: the n == 0 early return (no n/m/w keys, no edges) *)
@@ -268,11 +278,38 @@ Definition has_source (ns : list str) (es : list wedge) : bool :=
   existsb (fun x => negb (existsb (fun t => str_eqb (snd (fst t)) x) es)) ns.
 Definition has_sink (ns : list str) (es : list wedge) : bool :=
   existsb (fun x => negb (existsb (fun t => str_eqb (fst (fst t)) x) es)) ns.
-(* When the test fails the code looks up out_edges("source_<id>") on a graph that does not contain
-   that node; networkx then iterates the characters of the string, so one-character node names can
-   make the test pass (DESIGN §6 #20).  The model does not predict that case. *)
-Definition no_st (ns : list str) (e : perr) : res graph :=
-  if existsb (fun x => (length x =? 1)%nat) ns then Unmodelled else Error e.
+(* (Before /repo 59945c9 a failing test looked up out_edges("source_<id>") on a graph without that node and networkx
+   iterated the characters of the name; since that commit a graph without source / sink is a plain ValueError.) *)
+
+(* ---------------------------------------------------------------- G.graph["w"] *)
+Definition succs (es : list wedge) (u : str) : list str :=
+  map (fun t => snd (fst t)) (filter (fun t => str_eqb (fst (fst t)) u) es).
+(* for every node the list of nodes reachable from it (itself included) *)
+Definition reach_tab (ns : list str) (es : list wedge) : list (str * list str) :=
+  map (fun u => (u, Reach.clos str_eqb (succs es) (S (length ns)) [u])) ns.
+Definition reaches (tab : list (str * list str)) (u v : str) : bool :=
+  match find (fun p => str_eqb (fst p) u) tab with Some p => mem_str v (snd p) | None => false end.
+Definition same_scc (tab : list (str * list str)) (u v : str) : bool := reaches tab u v && reaches tab v u.
+(* one item (u,v) per edge between different components, one item (r,r) per component that contains an edge *)
+Fixpoint items_of (tab : list (str * list str)) (l : list wedge) (reps : list str) : list (str * str) :=
+  match l with
+  | [] => []
+  | (u, v, _) :: r =>
+      if same_scc tab u v
+      then if existsb (same_scc tab u) reps then items_of tab r reps else (u, u) :: items_of tab r (u :: reps)
+      else (u, v) :: items_of tab r reps
+  end.
+Definition comparable (tab : list (str * list str)) (a b : str * str) : bool :=
+  reaches tab (snd a) (fst b) || reaches tab (snd b) (fst a).
+(* size of a largest set of pairwise incomparable items that extends [chosen] *)
+Fixpoint best (tab : list (str * list str)) (items chosen : list (str * str)) : nat :=
+  match items with
+  | [] => length chosen
+  | i :: r => let skip := best tab r chosen in
+              if forallb (fun c => negb (comparable tab i c)) chosen then Nat.max (best tab r (i :: chosen)) skip else skip
+  end.
+Definition width (ns : list str) (es : list wedge) : nat :=
+  let tab := reach_tab ns es in best tab (items_of tab es []) [].
 
 (* the `if n == 0:` branch (since fc0735f): a block that declares 0 vertices may have neither subpath
    constraints nor any line after the count that is not blank and does not start with '#' *)
@@ -301,9 +338,10 @@ Definition read_graph (lines : list str) : res graph :=
                      if has_source ns es then
                        if has_sink ns es then
                          Ok {| gid := hd_error hdrs; gcons := cstr;
-                               ginf := Some {| gi_nodes := ns; gi_edges := es; gi_n := length ns; gi_m := length es |} |}
-                       else no_st ns ENoSink
-                     else no_st ns ENoSource
+                               ginf := Some {| gi_nodes := ns; gi_edges := es; gi_n := length ns; gi_m := length es;
+                                               gi_w := width ns es |} |}
+                       else Error ENoSink
+                     else Error ENoSource
                    else Error EMissingConstraintEdge
                end
       end
